@@ -262,3 +262,17 @@ func (c *Cond) Exprs() []Expr {
 	c.walkExprs(func(e Expr) { out = append(out, e) })
 	return out
 }
+
+// SingleTermNoInverse: e is one product term without negative powers, sums-as-atoms or indicators: a formula
+// whose overflow in evaluation is the overflow of the value itself.
+func SingleTermNoInverse(e Expr) bool {
+	if len(e.terms) != 1 {
+		return false
+	}
+	for _, f := range e.terms[0].f {
+		if f.e < 0 || f.a.Kind == ASum || f.a.Kind == AInd || f.a.Kind == ASigma || f.a.Kind == ABigMax || f.a.Kind == ABigMin {
+			return false
+		}
+	}
+	return true
+}
